@@ -869,6 +869,15 @@ fn find_subselectors() {
                 want.extend(seq.iter().filter_map(|i| match pool[*i] { T::Ann(i) => Some(format!("T{}", 2 * i)), T::AnnText(i) | T::AnnSub(i) => Some(format!("T{}", i)), _ => None }));
                 got.sort(); want.sort(); got.dedup(); want.dedup();
                 let plain = seq.iter().all(|i| matches!(pool[*i], T::Text(..) | T::Ann(_) | T::AnnText(_) | T::AnnSub(_)));
+                // recursive lookups do not depend on whether the targeted annotations have consecutive handles (internal range compression):
+                // the resources of X are those of its text parts and, through its annotation parts, of the annotations it targets
+                let mut res_got: Vec<String> = x.resources().map(|r| r.id().unwrap().to_string()).collect();
+                let mut res_want: Vec<String> = seq.iter().filter_map(|i| match pool[*i] { T::Text(r, _, _) => Some(rid[r].to_string()), T::Ann(i) => Some(rid[texts[2 * i].0].to_string()), T::AnnText(i) | T::AnnSub(i) => Some(rid[texts[i].0].to_string()), _ => None }).collect();
+                res_got.sort(); res_got.dedup(); res_want.sort(); res_want.dedup();
+                let mut deep_got: Vec<String> = x.annotations_in_targets(AnnotationDepth::Max).map(|a| a.id().unwrap().to_string()).collect();
+                let mut deep_want: Vec<String> = seq.iter().filter_map(|i| match pool[*i] { T::Ann(i) => Some(format!("T{}", 2 * i)), T::AnnText(i) | T::AnnSub(i) => Some(format!("T{}", i)), _ => None }).collect();
+                deep_got.sort(); deep_got.dedup(); deep_want.sort(); deep_want.dedup();
+                if plain && (res_got != res_want || deep_got != deep_want) { Some(format!("recursive lookups: resources() {:?} (built with {:?}), annotations_in_targets(Max) {:?} (built with {:?})", res_got, res_want, deep_got, deep_want)) } else
                 if plain && got != want { Some(format!("targets {:?}, built with {:?}", got, want)) } else { store_inconsistency(&store) }
             }
         };
